@@ -7,7 +7,8 @@ for d in $dirs; do
   d=${d%/}
   props=$(python3 -c "import json;print(' '.join(json.load(open('$d/meta.json')).get('breaks',[])))")
   [ -z "$props" ] && { echo "$d: no properties listed"; continue; }
-  res=$(tools/mutant_check.sh $d/patch.diff $props 2>&1)
+  pf=$d/patch.diff; [ -f $d/patch_head.diff ] && pf=$d/patch_head.diff   # patch_head.diff: the same change re-based onto the current tree
+  res=$(tools/mutant_check.sh $pf $props 2>&1)
   echo "== $d"; echo "$res"
   python3 - "$d" "$res" <<'PY'
 import json,sys,datetime
